@@ -24,6 +24,9 @@
 #include <chrono>
 #include <cstdarg>
 #include <cerrno>
+#include <poll.h>
+#include <sys/prctl.h>
+#include <sys/resource.h>
 
 namespace {
 
@@ -167,9 +170,11 @@ struct Coord {
   std::map<std::pair<int, std::pair<int, int>>, std::deque<std::shared_ptr<Msg>>> chan;  // (comm,(src,dst)) -> in flight
   FILE* log = nullptr; long t = 0; long max_steps = 5000000; int eager_pct = 50; long logbytes = 256; long idle_false = 0;
   std::string policy = "uniform"; int racer = 0; long livelock_k = 400000; long since_progress = 0; long n_deliver = 0, n_complete = 0, n_answer = 0, n_false = 0;
-  std::string verdict = "ok";
+  std::string verdict = "ok"; time_t t_start = time(nullptr); long wall_budget = 900;
 
-  void L(const char* fmt, ...) { if (!log) return; va_list ap; va_start(ap, fmt); fprintf(log, "%ld ", t); vfprintf(log, fmt, ap); fputc('\n', log); va_end(ap); }
+  long log_written = 0, log_budget = 768L << 20;   // runaway handlers must not fill the disk
+  void L(const char* fmt, ...) { if (!log) return; if (log_written > log_budget) { if (verdict == "ok") verdict = "log-budget"; return; }
+    va_list ap; va_start(ap, fmt); log_written += fprintf(log, "%ld ", t); log_written += vfprintf(log, fmt, ap); fputc('\n', log); va_end(ap); }
   std::string hex(const std::vector<char>& d) { static const char* H = "0123456789abcdef"; std::string s; size_t m = logbytes < 0 ? d.size() : std::min<size_t>(d.size(), logbytes); for (size_t i = 0; i < m; ++i) { s += H[(d[i] >> 4) & 15]; s += H[d[i] & 15]; } if (m < d.size()) s += "+"; return s; }
   int crank(int comm, int world) { auto& m = comms[comm].members; return (int)(std::find(m.begin(), m.end(), world) - m.begin()); }
 
@@ -287,6 +292,14 @@ struct Coord {
   void pump(int r) {
     RankSt& R = rk[r];
     while (R.state == 0) {
+      if (verdict != "ok") return;
+      // wait for the running rank's next request, but give up when our own parent is gone or the wall budget is spent
+      while (true) {
+        struct pollfd pf{R.fd, POLLIN, 0}; int pr = ::poll(&pf, 1, 1000);
+        if (pr > 0) break;
+        if (getppid() == 1) { verdict = "orphaned"; return; }
+        if (time(nullptr) - t_start > wall_budget) { verdict = "wall-budget"; return; }
+      }
       if (!rd(R.fd, &R.h, sizeof R.h)) { R.state = 2; int st = 0; waitpid(R.pid, &st, 0); R.reaped = true;
         bool clean = WIFEXITED(st) && WEXITSTATUS(st) == 0; L("exit r=%d clean=%d", r, (int)clean);
         if (!clean && verdict == "ok") verdict = "rank-failed: r" + std::to_string(r) + (WIFSIGNALED(st) ? " signal " + std::to_string(WTERMSIG(st)) : " exit " + std::to_string(WEXITSTATUS(st)));
@@ -354,7 +367,7 @@ int main(int argc, char** argv) {
   C.rng.s = (e = getenv("SIMMPI_SEED")) ? strtoull(e, 0, 10) : 1; if ((e = getenv("SIMMPI_EAGER_PCT"))) C.eager_pct = atoi(e);
   if ((e = getenv("SIMMPI_MAX_STEPS"))) C.max_steps = atol(e); if ((e = getenv("SIMMPI_LOG_BYTES"))) C.logbytes = atol(e);
   if ((e = getenv("SIMMPI_LOG"))) C.log = fopen(e, "w");
-  if ((e = getenv("SIMMPI_POLICY"))) C.policy = e; if ((e = getenv("SIMMPI_LIVELOCK"))) C.livelock_k = atol(e);
+  if ((e = getenv("SIMMPI_POLICY"))) C.policy = e; if ((e = getenv("SIMMPI_WALL_S"))) C.wall_budget = atol(e); if ((e = getenv("SIMMPI_MAX_LOG_MB"))) C.log_budget = atol(e) << 20; if ((e = getenv("SIMMPI_LIVELOCK"))) C.livelock_k = atol(e);
   C.racer = (int)(C.rng.s % (uint64_t)C.n);
   signal(SIGPIPE, SIG_IGN);
   C.rk.resize(C.n); C.comms[MPI_COMM_WORLD].members.resize(C.n); C.comms[MPI_COMM_WORLD].seq.assign(C.n, 0);
@@ -363,7 +376,7 @@ int main(int argc, char** argv) {
   for (int r = 0; r < C.n; ++r) {
     int sv[2]; socketpair(AF_UNIX, SOCK_STREAM, 0, sv);
     pid_t pid = fork();
-    if (pid == 0) { close(sv[0]); for (int q = 0; q < r; ++q) close(C.rk[q].fd); if (C.log) fclose(C.log); g_fd = sv[1]; g_world_rank = r; g_world_size = C.n; int rc = sim_main(argc, argv); fflush(stdout); fflush(stderr); _exit(rc); }
+    if (pid == 0) { prctl(PR_SET_PDEATHSIG, SIGKILL); if (const char* asmb = getenv("SIMMPI_AS_MB")) { struct rlimit rl; rl.rlim_cur = rl.rlim_max = (rlim_t)atol(asmb) << 20; setrlimit(RLIMIT_AS, &rl); } close(sv[0]); for (int q = 0; q < r; ++q) close(C.rk[q].fd); if (C.log) fclose(C.log); g_fd = sv[1]; g_world_rank = r; g_world_size = C.n; int rc = sim_main(argc, argv); fflush(stdout); fflush(stderr); _exit(rc); }
     close(sv[1]); C.rk[r].fd = sv[0]; C.rk[r].pid = pid; C.rk[r].state = 0;
   }
   C.run();
